@@ -98,12 +98,11 @@ func (p *entryProv) get(u *Unit, key string) string {
 	}
 	u.heapTyping(key, n)
 	if strings.HasPrefix(key, "Held.") && p.tag == "entry" {
-		// a function is entered holding exactly the locks its precondition names
-		cond := "true"
-		for _, r := range u.entryHeld[key] {
-			cond += " (not (= r " + r + "))"
+		if u.entryHeldReady {
+			u.entryHeldAssume(key, n)
+		} else {
+			u.pendingHeld = append(u.pendingHeld, key, n)
 		}
-		u.assert(fmt.Sprintf("(forall ((r Int)) (! (=> (and %s) (= (select %s r) 0)) :pattern ((select %s r))))", cond, n, n))
 	}
 	p.cache[key] = n
 	return n
@@ -276,4 +275,22 @@ func mergeStates(u *Unit, tag string, ins []mergeIn) *state {
 	}
 	mp := &mergeProv{tag: tag, ins: ins, cache: map[string]string{}}
 	return &state{over: map[string]string{}, base: mp, u: u}
+}
+
+// entryHeldAssume: a function is entered holding exactly the locks its precondition names
+func (u *Unit) entryHeldAssume(key, n string) {
+	// objects that do not exist yet cannot be locked
+	if u.entryState != nil {
+		u.assert(fmt.Sprintf("(forall ((r Int)) (! (=> (> r %s) (= (select %s r) 0)) :pattern ((select %s r))))", u.entryState.get(u, allocKey), n, n))
+	}
+	cond := "true"
+	for _, r := range u.entryHeld[key] {
+		if strings.Contains(r, "q!") {
+			// the precondition names locks of this class under a quantifier: nothing is assumed
+			// about the class beyond what the precondition says
+			return
+		}
+		cond += " (not (= r " + r + "))"
+	}
+	u.assert(fmt.Sprintf("(forall ((r Int)) (! (=> (and %s) (= (select %s r) 0)) :pattern ((select %s r))))", cond, n, n))
 }
